@@ -861,6 +861,22 @@ func (env *Env) call(n *ast.CallExpr) TV {
 			return TV{T: eq(sel(c.Get(env.st, "$held"), sk), sel(c.Get(env.old, "$held"), sk)), Ty: boolT}
 		}
 		return TV{T: eq(c.Get(env.st, "$held"), c.Get(env.old, "$held")), Ty: boolT}
+	case "smhas", "smget", "au": // ghost views of a package-level sync.Map / atomic.Uint64
+		a := env.evalAddr(n.Args[0])
+		if a == nil || a.Kind != "cell" {
+			return env.fail("%s: first argument must be a package-level variable", fname)
+		}
+		if fname == "au" {
+			comp := "$au." + a.Comp
+			c.DeclComp(comp, bvSort(64))
+			return TV{T: c.Get(env.st, comp), Ty: types.Typ[types.Uint64]}
+		}
+		dom, val := env.e.syncMapComps(a.Comp)
+		k := env.eval(n.Args[1])
+		if fname == "smhas" {
+			return TV{T: sel(c.Get(env.st, dom), k.T), Ty: boolT}
+		}
+		return TV{T: sel(c.Get(env.st, val), k.T), Ty: types.Universe.Lookup("any").Type()}
 	case "isnew": // isnew(r): reference r was allocated by this invocation (after entry)
 		v := env.eval(n.Args[0])
 		return TV{T: "(> " + v.T + " " + env.e.top(env.old) + ")", Ty: boolT}
